@@ -143,4 +143,38 @@ theorem parseMagnitude_hex (n : Nat) (h : n < two64) : parseMagnitude ('0' :: 'x
   unfold parseMagnitude
   exact parseHex_uintStr n h
 
+theorem parseNumber64_intStr (u : Nat) (h : u < two64) : parseNumber64 (intStr u) = some u := by
+  have hmod : u % two64 = u := Nat.mod_eq_of_lt h
+  unfold intStr
+  rw [hmod]
+  by_cases hneg : u ≥ two63
+  · simp only [hneg, if_true]
+    have hm : two64 - u < two64 := by unfold two64 at *; unfold two63 at hneg; omega
+    simp only [parseNumber64, parseMagnitude_dec _ hm, Option.bind]
+    have h1 : two64 - u ≤ two63 := by unfold two64 two63 at *; omega
+    have h2 : two64 - u ≠ 0 := by omega
+    simp only [h1, h2, ne_eq, not_false_eq_true, and_self, if_true]
+    congr 1; omega
+  · simp only [hneg, if_false]
+    have hp := uintStr_dec_plain u
+    unfold parseNumber64
+    split
+    · rename_i rest heq
+      exact absurd rfl (hp '-' (by rw [heq]; simp)).2
+    · simp [parseMagnitude_dec u h, h]
+
+
+/-- a number token: `0x…` when the hex switch applies, else signed decimal -/
+def numTok (hex : Bool) (u : Nat) : Str := if hex = true ∧ u > 9 then ['0', 'x'] ++ uintStr u 16 else intStr u
+
+theorem parseNumber64_numTok (hex : Bool) (u : Nat) (h : u < two64) : parseNumber64 (numTok hex u) = some u := by
+  unfold numTok
+  split
+  · show parseNumber64 ('0' :: 'x' :: uintStr u 16) = some u
+    unfold parseNumber64
+    split
+    · rename_i heq; simp at heq
+    · simp [parseMagnitude_hex u h, h]
+  · exact parseNumber64_intStr u h
+
 end AsmjitVerif.Lemmas.FormatNum
